@@ -69,6 +69,8 @@ def _is_set_expr(e: ast.expr, set_names: Set[str], set_fields: Set[str]) -> bool
         return True
     if isinstance(e, ast.Attribute) and e.attr in set_fields:
         return True
+    if isinstance(e, ast.IfExp):
+        return _is_set_expr(e.body, set_names, set_fields) or _is_set_expr(e.orelse, set_names, set_fields)    # may be a set
     if isinstance(e, ast.BinOp) and isinstance(e.op, (ast.Sub, ast.BitOr, ast.BitAnd, ast.BitXor)):
         return _is_set_expr(e.left, set_names, set_fields) or _is_set_expr(e.right, set_names, set_fields)
     if isinstance(e, ast.Call) and isinstance(e.func, ast.Attribute) and e.func.attr in ("union", "intersection", "difference", "symmetric_difference", "copy") \
@@ -77,13 +79,50 @@ def _is_set_expr(e: ast.expr, set_names: Set[str], set_fields: Set[str]) -> bool
     return False
 
 
+def _global_sets(P) -> Set[str]:
+    """module-level names bound to a set-typed expression (ASSIGNABLE_STATES = frozenset({...})): set-typed wherever they are imported"""
+    out: Set[str] = set()
+    for m in P.real_modules():
+        for k, v in m.module_assigns().items():
+            if _is_set_expr(v, out, set()):
+                out.add(k)
+    return out
+
+
+def _set_params(P, globs: Set[str], fields: Set[str]) -> Dict[str, Set[str]]:
+    """function qualified name -> parameters that receive a set-typed argument at some call site of the package (one level, by callee
+    name; a parameter that *may* be a set is treated as a set: iterating it lets the order of the result follow hash values)"""
+    out: Dict[str, Set[str]] = {}
+    by_name: Dict[str, List] = {}
+    for f in _funcs(P):
+        by_name.setdefault(f.name, []).append(f)
+    for f in _funcs(P):
+        for c in own_nodes(f.node):
+            if not isinstance(c, ast.Call):
+                continue
+            cn = norm.call_name(c)
+            for tgt in by_name.get(cn, []):
+                params = tgt.params()
+                if params and params[0] in ("self", "cls") and isinstance(c.func, ast.Attribute):
+                    params = params[1:]
+                for i, a in enumerate(c.args):
+                    if i < len(params) and _is_set_expr(a, globs, fields):
+                        out.setdefault(f"{tgt.mod.rel}::{tgt.qual}", set()).add(params[i])
+                for kw_ in c.keywords:
+                    if kw_.arg in params and _is_set_expr(kw_.value, globs, fields):
+                        out.setdefault(f"{tgt.mod.rel}::{tgt.qual}", set()).add(kw_.arg)
+    return out
+
+
 def check_set_iteration(ctx, num=1):
     P = ctx.P
     fields = _set_fields(P)
+    globs = _global_sets(P)
+    setp = _set_params(P, globs, fields)
     n_sets = 0
     n_bad = 0
     for f in _funcs(P):
-        names: Set[str] = set()
+        names: Set[str] = set(globs) | setp.get(f"{f.mod.rel}::{f.qual}", set())
         changed = True
         while changed:
             changed = False
@@ -115,6 +154,11 @@ def check_set_iteration(ctx, num=1):
                 sites.append((n, f"unpacking of {norm.U(n.value)}"))
             if isinstance(n, ast.Starred) and _is_set_expr(n.value, names, fields):
                 sites.append((n, f"*{norm.U(n.value)}"))
+            if isinstance(n, ast.Call) and isinstance(n.func, ast.Attribute) and n.func.attr in ("extend", "extendleft", "writerows", "join") and len(n.args) == 1 \
+                    and _is_set_expr(n.args[0], names, fields) and not _is_set_expr(n.func.value, names, fields):
+                sites.append((n, f"{norm.U(n.func)}() of the set {norm.U(n.args[0])} (the elements are appended in the set's order)"))
+            if isinstance(n, ast.AugAssign) and isinstance(n.op, ast.Add) and _is_set_expr(n.value, names, fields):
+                sites.append((n, f"`+=` of the set {norm.U(n.value)} onto a sequence"))
             if isinstance(n, ast.Call) and isinstance(n.func, ast.Attribute) and n.func.attr == "pop" and not n.args and _is_set_expr(n.func.value, names, fields):
                 sites.append((n, f"{norm.U(n)} (arbitrary element)"))
             for node, what in sites:
